@@ -119,8 +119,13 @@ func (h *hist16) blockBytes(vals []any) []byte {
 	return w.B
 }
 
-func (h *hist16) decode(vals []any, cut bool) error {
+func (h *hist16) decode(vals []any, cut bool) error { return h.decodeW(vals, cut, -1) }
+
+// decodeW: kw >= 0 makes the reference server write LowCardinality keys wider than needed.
+func (h *hist16) decodeW(vals []any, cut bool, kw int) error {
+	refcol.LCKeyWidth = kw
 	b := h.blockBytes(vals)
+	refcol.LCKeyWidth = -1
 	if cut {
 		b = b[:len(b)-1]
 	}
@@ -166,6 +171,11 @@ func ops16(h *hist16) []op16 {
 		{"decode3", func(h *hist16) error { return h.decode(h.dec[1], false) }},
 		{"failed-decode+reset", func(h *hist16) error { return h.decode(h.dec[0], true) }},
 	}
+	if strings.Contains(h.e.Label, "LowCardinality") {
+		ops = append(ops,
+			op16{"decode2-keys16", func(h *hist16) error { return h.decodeW(h.dec[0], false, 1) }},
+			op16{"decode3-keys64", func(h *hist16) error { return h.decodeW(h.dec[1], false, 3) }})
+	}
 	if p, ok := h.col.C.(proto.Preparable); ok {
 		_ = p
 		ops = append(ops, op16{"prepare", func(h *hist16) error { return h.col.C.(proto.Preparable).Prepare() }})
@@ -190,7 +200,7 @@ func newHist16(e reg.Entry, rev int) (*hist16, error) {
 
 // C16 — reused columns carry nothing over: reset+decode and re-encode are exact.
 func C16(c *vk.Ctx) {
-	c.Rule("explicit-state breadth-first search over operation histories on the real column object, for each of 21 compositions (thorough: every registry composition of depth <= 1): alphabet {Append of 3 different values, Reset, EncodeBlock (Prepare + state + data), WriteBlock+Flush, DecodeBlock of 0 / 2 / 3 rows holding other values (other dictionary), truncated DecodeBlock followed by Reset, Prepare where the column has it, Infer of its own type where inferable}; histories to depth 5 (thorough 6), a history is expanded only when the full-object fingerprint (every field, exported or not) together with the model state is new; successors are built by replaying the path on a fresh object. Oracle after every history: Rows()/Row(i) equal the list model, a fresh EncodeBlock decoded by the reference model equals the list model, and encoding twice gives the same bytes. states = distinct (object fingerprint, model) pairs; transitions = operations executed.")
+	c.Rule("explicit-state breadth-first search over operation histories on the real column object, for each of 21 compositions (thorough: every registry composition of depth <= 1): alphabet {Append of 3 different values, Reset, EncodeBlock (Prepare + state + data), WriteBlock+Flush, DecodeBlock of 0 / 2 / 3 rows holding other values (other dictionary; for LowCardinality also with keys written wider than necessary, which is valid on the wire), truncated DecodeBlock followed by Reset, Prepare where the column has it, Infer of its own type where inferable}; histories to depth 5 (thorough 6), a history is expanded only when the full-object fingerprint (every field, exported or not) together with the model state is new; successors are built by replaying the path on a fresh object. Oracle after every history: Rows()/Row(i) equal the list model, a fresh EncodeBlock decoded by the reference model equals the list model, and encoding twice gives the same bytes. states = distinct (object fingerprint, model) pairs; transitions = operations executed.")
 	depth := 5
 	if !c.Quick() {
 		depth = 6
